@@ -168,3 +168,251 @@ Theorem C16_bash_cur_is_subcommand_refuted :
               compgen_W l [115] = [[115]; [115; 120]] /\ bash_complete t [[112]; [115]] = Some [].
 Proof. exact bash_cur_is_subcommand_refuted. Qed.
 Print Assumptions C16_bash_cur_is_subcommand_refuted.
+
+(* ---- powershell / elvish generator models ---- *)
+(** Byte-exact models of clap_complete/src/aot/shells/{elvish,powershell}.rs (Complete/ElvishModel.v,
+    Complete/PowershellModel.v; the texts of the tree are kept in a [TextTree.ttree]; the common table
+    specification is [PathTable.gi]).  Names are qualified: the two model files reuse the Rust names. *)
+From ClapModel Require Complete.TextTree Complete.PathTable Complete.PathTableLex Complete.PathTableBlocks Complete.BuildTexts
+  Complete.ElvishModel Complete.ElvishProofs Complete.PowershellModel Complete.PowershellProofs.
+
+(** the hypotheses of the coverage theorems below are satisfiable by a built two-level tree *)
+Theorem C16_table_covers_nonvacuous :
+  exists c bin b ws ns n a s0 s l0 sc w,
+    build (set_bin_name c bin) = Some b /\ c_bin b = Some bin /\ bin <> [] /\ bins_built b /\
+    reach b ws ns n /\ ws <> [] /\
+    In a (c_args n) /\ a_is_positional a = false /\ a_short a = Some s0 /\ In (s, true) (a_short_aliases a) /\
+    a_long a = Some l0 /\ In sc (c_subs n) /\ In w (get_name_and_visible_aliases sc).
+Proof. exact PathTable.covers_hyps_example. Qed.
+Print Assumptions C16_table_covers_nonvacuous.
+
+(** elvish: on a tree whose nodes all have bin names (what [Command::build] establishes) the
+    transcription of elvish.rs reaches no panic site and its output is the fixed text around the
+    table specification *)
+Theorem C16_elvish_model_is_table : forall c t bin,
+  c_bin c = Some bin -> bins_built c ->
+  ElvishModel.generate c t = Some (ElvishModel.render bin (PathTable.gi ElvishProofs.el_fmt c t [])).
+Proof. exact ElvishProofs.generate_spec. Qed.
+Print Assumptions C16_elvish_model_is_table.
+
+Theorem C16_elvish_total : forall c b t,
+  build c = Some b -> c_bin b <> None -> exists s, ElvishModel.generate b t = Some s.
+Proof. exact ElvishProofs.generate_total. Qed.
+Print Assumptions C16_elvish_total.
+
+Theorem C16_elvish_deterministic : forall c1 c2 t1 t2 b1 b2,
+  c1 = c2 -> t1 = t2 -> b1 = b2 ->
+  ElvishModel.generate_elvish c1 t1 b1 = ElvishModel.generate_elvish c2 t2 b2.
+Proof. exact ElvishProofs.generate_elvish_deterministic. Qed.
+Print Assumptions C16_elvish_deterministic.
+
+(** elvish, EVERY depth: for every path [ws] of names or visible aliases from the root to a node [n]
+    the script contains the block keyed [bin;w1;...;wk]; that block has an entry [cand -s '...'] for
+    the short and every visible short alias of every option or flag of [n] that has a short, an entry
+    [cand --l '...'] for the long and every visible alias of every one that has a long, and an entry
+    [cand w '...'] for every name and visible alias of every subcommand of [n] (hidden ones included).
+    Class boundaries: aliases of an argument without the primary spelling (finding
+    alias-without-primary), possible values (finding values-not-in-powershell-elvish), an empty bin
+    name -- each with a refutation witness below. *)
+Theorem C16_elvish_covers : forall c t bin ws ns n,
+  c_bin c = Some bin -> bin <> [] -> bins_built c -> reach c ws ns n ->
+  exists script tn,
+    ElvishModel.generate c t = Some script /\
+    PathTable.infix (ElvishModel.case_block (PathTable.path_key bin ws) (PathTable.entries ElvishProofs.el_fmt n tn)) script /\
+    (forall a s0 s, In a (c_args n) -> a_is_positional a = false -> a_short a = Some s0 ->
+       (s = s0 \/ In (s, true) (a_short_aliases a)) ->
+       exists tip, PathTable.infix (ElvishProofs.el_short s tip) (PathTable.entries ElvishProofs.el_fmt n tn)) /\
+    (forall a l0 l, In a (c_args n) -> a_is_positional a = false -> a_long a = Some l0 ->
+       (l = l0 \/ In (l, true) (a_aliases a)) ->
+       exists tip, PathTable.infix (ElvishProofs.el_long l tip) (PathTable.entries ElvishProofs.el_fmt n tn)) /\
+    (forall sc w, In sc (c_subs n) -> In w (get_name_and_visible_aliases sc) ->
+       exists tip, PathTable.infix (ElvishProofs.el_sub w tip) (PathTable.entries ElvishProofs.el_fmt n tn)).
+Proof. exact ElvishProofs.elvish_covers. Qed.
+Print Assumptions C16_elvish_covers.
+
+Theorem C16_elvish_alias_without_primary_refuted :
+  exists c t bin a s script, In a (c_args c) /\ a_is_positional a = false /\ In (s, true) (a_short_aliases a) /\
+    ElvishModel.generate_elvish c t bin = Some script /\
+    forall tip, ~ PathTable.infix (ElvishProofs.el_short s tip) script.
+Proof. exact ElvishProofs.elvish_alias_without_primary_refuted. Qed.
+Print Assumptions C16_elvish_alias_without_primary_refuted.
+
+Theorem C16_elvish_values_refuted :
+  exists c t bin a v script, In a (c_args c) /\ possible_values a = Some [mkPv v false] /\
+    ElvishModel.generate_elvish c t bin = Some script /\ ~ PathTable.infix v script.
+Proof. exact ElvishProofs.elvish_values_refuted. Qed.
+Print Assumptions C16_elvish_values_refuted.
+
+Theorem C16_elvish_empty_bin_refuted :
+  exists c t sc script, ElvishModel.generate_elvish c t [] = Some script /\ In sc (c_subs c) /\
+    forall es, ~ PathTable.infix (ElvishModel.case_block (PathTable.path_key [] [c_name sc]) es) script.
+Proof. exact ElvishProofs.elvish_empty_bin_refuted. Qed.
+Print Assumptions C16_elvish_empty_bin_refuted.
+
+(** PowerShell: the same four statements, for every [is_uppercase : N -> bool] (Rust's
+    [char::is_uppercase], a parameter of the model) *)
+Theorem C16_powershell_model_is_table : forall up c t bin,
+  c_bin c = Some bin -> bins_built c ->
+  PowershellModel.generate up c t =
+  Some (PowershellModel.render bin (PathTable.gi (PowershellProofs.ps_fmt up) c t [])).
+Proof. exact PowershellProofs.generate_spec. Qed.
+Print Assumptions C16_powershell_model_is_table.
+
+Theorem C16_powershell_total : forall up c b t,
+  build c = Some b -> c_bin b <> None -> exists s, PowershellModel.generate up b t = Some s.
+Proof. exact PowershellProofs.generate_total. Qed.
+Print Assumptions C16_powershell_total.
+
+Theorem C16_powershell_deterministic : forall up c1 c2 t1 t2 b1 b2,
+  c1 = c2 -> t1 = t2 -> b1 = b2 ->
+  PowershellModel.generate_powershell up c1 t1 b1 = PowershellModel.generate_powershell up c2 t2 b2.
+Proof. exact PowershellProofs.generate_powershell_deterministic. Qed.
+Print Assumptions C16_powershell_deterministic.
+
+Theorem C16_powershell_covers : forall up c t bin ws ns n,
+  c_bin c = Some bin -> bin <> [] -> bins_built c -> reach c ws ns n ->
+  exists script tn,
+    PowershellModel.generate up c t = Some script /\
+    PathTable.infix (PowershellModel.case_block (PathTable.path_key bin ws)
+                       (PathTable.entries (PowershellProofs.ps_fmt up) n tn)) script /\
+    (forall a s0 s, In a (c_args n) -> a_is_positional a = false -> a_short a = Some s0 ->
+       (s = s0 \/ In (s, true) (a_short_aliases a)) ->
+       exists tip, PathTable.infix (PowershellProofs.ps_short up s tip)
+                     (PathTable.entries (PowershellProofs.ps_fmt up) n tn)) /\
+    (forall a l0 l, In a (c_args n) -> a_is_positional a = false -> a_long a = Some l0 ->
+       (l = l0 \/ In (l, true) (a_aliases a)) ->
+       exists tip, PathTable.infix (PowershellProofs.ps_long l tip)
+                     (PathTable.entries (PowershellProofs.ps_fmt up) n tn)) /\
+    (forall sc w, In sc (c_subs n) -> In w (get_name_and_visible_aliases sc) ->
+       exists tip, PathTable.infix (PowershellProofs.ps_sub w tip)
+                     (PathTable.entries (PowershellProofs.ps_fmt up) n tn)).
+Proof. exact PowershellProofs.powershell_covers. Qed.
+Print Assumptions C16_powershell_covers.
+
+Theorem C16_powershell_alias_without_primary_refuted :
+  exists c t bin a s script, In a (c_args c) /\ a_is_positional a = false /\ In (s, true) (a_short_aliases a) /\
+    PowershellModel.generate_powershell PowershellProofs.ascii_upper c t bin = Some script /\
+    forall tip, ~ PathTable.infix (PowershellProofs.ps_short PowershellProofs.ascii_upper s tip) script.
+Proof. exact PowershellProofs.powershell_alias_without_primary_refuted. Qed.
+Print Assumptions C16_powershell_alias_without_primary_refuted.
+
+Theorem C16_powershell_values_refuted :
+  exists c t bin a v script, In a (c_args c) /\ possible_values a = Some [mkPv v false] /\
+    PowershellModel.generate_powershell PowershellProofs.ascii_upper c t bin = Some script /\
+    ~ PathTable.infix v script.
+Proof. exact PowershellProofs.powershell_values_refuted. Qed.
+Print Assumptions C16_powershell_values_refuted.
+
+Theorem C16_powershell_empty_bin_refuted :
+  exists c t sc script,
+    PowershellModel.generate_powershell PowershellProofs.ascii_upper c t [] = Some script /\ In sc (c_subs c) /\
+    forall es, ~ PathTable.infix (PowershellModel.case_block (PathTable.path_key [] [c_name sc]) es) script.
+Proof. exact PowershellProofs.powershell_empty_bin_refuted. Qed.
+Print Assumptions C16_powershell_empty_bin_refuted.
+(** [Command::build] never runs out of fuel: [None] (the model's out-of-fuel result) is unreachable *)
+Theorem C16_build_total : forall c, build c <> None.
+Proof. exact BuildTexts.build_total. Qed.
+Print Assumptions C16_build_total.
+
+(** [clap_complete::aot::generate] as a whole ([set_bin_name], [Command::build] on the command and on its
+    texts, the generator) terminates with a script for EVERY command tree, texts and bin name: no panic
+    site of the generator is reachable after [build] *)
+Theorem C16_elvish_generate_total : forall c bin t, exists s, ElvishModel.generate_elvish c t bin = Some s.
+Proof. exact ElvishProofs.elvish_generate_total. Qed.
+Print Assumptions C16_elvish_generate_total.
+
+Theorem C16_powershell_generate_total : forall up c bin t,
+  exists s, PowershellModel.generate_powershell up c t bin = Some s.
+Proof. exact PowershellProofs.powershell_generate_total. Qed.
+Print Assumptions C16_powershell_generate_total.
+
+(** coverage stated for [clap_complete::aot::generate] as a whole: for every command tree, texts and non-empty
+    bin name there is ONE script, and for EVERY path of names or visible aliases of the built tree, at every depth,
+    it contains the block of that path with the entries listed in C16_<shell>_covers *)
+Theorem C16_elvish_generate_covers : forall c t bin, bin <> [] ->
+  exists b script,
+    build (set_bin_name c bin) = Some b /\ ElvishModel.generate_elvish c t bin = Some script /\
+    forall ws ns n, reach b ws ns n ->
+      exists tn,
+        PathTable.infix (ElvishModel.case_block (PathTable.path_key bin ws) (PathTable.entries ElvishProofs.el_fmt n tn)) script /\
+        (forall a s0 s, In a (c_args n) -> a_is_positional a = false -> a_short a = Some s0 ->
+           (s = s0 \/ In (s, true) (a_short_aliases a)) ->
+           exists tip, PathTable.infix (ElvishProofs.el_short s tip) (PathTable.entries ElvishProofs.el_fmt n tn)) /\
+        (forall a l0 l, In a (c_args n) -> a_is_positional a = false -> a_long a = Some l0 ->
+           (l = l0 \/ In (l, true) (a_aliases a)) ->
+           exists tip, PathTable.infix (ElvishProofs.el_long l tip) (PathTable.entries ElvishProofs.el_fmt n tn)) /\
+        (forall sc w, In sc (c_subs n) -> In w (get_name_and_visible_aliases sc) ->
+           exists tip, PathTable.infix (ElvishProofs.el_sub w tip) (PathTable.entries ElvishProofs.el_fmt n tn)).
+Proof. exact ElvishProofs.elvish_generate_covers. Qed.
+Print Assumptions C16_elvish_generate_covers.
+
+Theorem C16_powershell_generate_covers : forall up c t bin, bin <> [] ->
+  exists b script,
+    build (set_bin_name c bin) = Some b /\ PowershellModel.generate_powershell up c t bin = Some script /\
+    forall ws ns n, reach b ws ns n ->
+      exists tn,
+        PathTable.infix (PowershellModel.case_block (PathTable.path_key bin ws)
+                           (PathTable.entries (PowershellProofs.ps_fmt up) n tn)) script /\
+        (forall a s0 s, In a (c_args n) -> a_is_positional a = false -> a_short a = Some s0 ->
+           (s = s0 \/ In (s, true) (a_short_aliases a)) ->
+           exists tip, PathTable.infix (PowershellProofs.ps_short up s tip)
+                         (PathTable.entries (PowershellProofs.ps_fmt up) n tn)) /\
+        (forall a l0 l, In a (c_args n) -> a_is_positional a = false -> a_long a = Some l0 ->
+           (l = l0 \/ In (l, true) (a_aliases a)) ->
+           exists tip, PathTable.infix (PowershellProofs.ps_long l tip)
+                         (PathTable.entries (PowershellProofs.ps_fmt up) n tn)) /\
+        (forall sc w, In sc (c_subs n) -> In w (get_name_and_visible_aliases sc) ->
+           exists tip, PathTable.infix (PowershellProofs.ps_sub w tip)
+                         (PathTable.entries (PowershellProofs.ps_fmt up) n tn)).
+Proof. exact PowershellProofs.powershell_generate_covers. Qed.
+Print Assumptions C16_powershell_generate_covers.
+
+(** the block of a path IS what the shell finds under the key it computes from the command line: the
+    script is the list [blocks] rendered block by block in order; when sibling names and aliases are
+    distinct (clap's own check) and no name contains the separator [;] ([no_semi]), the block keyed by the
+    [;]-joined path to a node [n] is in the list, every block with that key has [n]'s entries (whose
+    contents the theorems C16_<shell>_covers describe), and a first-match lookup returns it *)
+Theorem C16_elvish_lookup : forall c t bin ws ns n,
+  c_bin c = Some bin -> bin <> [] -> bins_built c -> siblings_ok c ->
+  PathTableLex.cmd_plain PathTableBlocks.no_semi c = true -> reach c ws ns n ->
+  exists tn,
+    ElvishModel.generate c t =
+      Some (ElvishModel.render bin
+              (List.concat (map (PathTableBlocks.render_block ElvishProofs.el_fmt)
+                                (PathTableBlocks.blocks ElvishProofs.el_fmt c t [])))) /\
+    In (PathTable.path_key bin ws, PathTable.entries ElvishProofs.el_fmt n tn)
+       (PathTableBlocks.blocks ElvishProofs.el_fmt c t []) /\
+    (forall e, In (PathTable.path_key bin ws, e) (PathTableBlocks.blocks ElvishProofs.el_fmt c t []) ->
+               e = PathTable.entries ElvishProofs.el_fmt n tn) /\
+    PathTableBlocks.lookup_block (PathTableBlocks.blocks ElvishProofs.el_fmt c t []) (PathTable.path_key bin ws) =
+      Some (PathTable.path_key bin ws, PathTable.entries ElvishProofs.el_fmt n tn).
+Proof. exact ElvishProofs.elvish_lookup. Qed.
+Print Assumptions C16_elvish_lookup.
+
+Theorem C16_powershell_lookup : forall up c t bin ws ns n,
+  c_bin c = Some bin -> bin <> [] -> bins_built c -> siblings_ok c ->
+  PathTableLex.cmd_plain PathTableBlocks.no_semi c = true -> reach c ws ns n ->
+  exists tn,
+    PowershellModel.generate up c t =
+      Some (PowershellModel.render bin
+              (List.concat (map (PathTableBlocks.render_block (PowershellProofs.ps_fmt up))
+                                (PathTableBlocks.blocks (PowershellProofs.ps_fmt up) c t [])))) /\
+    In (PathTable.path_key bin ws, PathTable.entries (PowershellProofs.ps_fmt up) n tn)
+       (PathTableBlocks.blocks (PowershellProofs.ps_fmt up) c t []) /\
+    (forall e, In (PathTable.path_key bin ws, e) (PathTableBlocks.blocks (PowershellProofs.ps_fmt up) c t []) ->
+               e = PathTable.entries (PowershellProofs.ps_fmt up) n tn) /\
+    PathTableBlocks.lookup_block (PathTableBlocks.blocks (PowershellProofs.ps_fmt up) c t [])
+                                 (PathTable.path_key bin ws) =
+      Some (PathTable.path_key bin ws, PathTable.entries (PowershellProofs.ps_fmt up) n tn).
+Proof. exact PowershellProofs.powershell_lookup. Qed.
+Print Assumptions C16_powershell_lookup.
+
+(** the hypotheses of the two lookup theorems are satisfiable (three-level tree with a hyphenated name,
+    a visible and a hidden alias; path through the visible alias) *)
+Theorem C16_table_lookup_nonvacuous :
+  c_bin ex_root = Some [112%N] /\ [112%N] <> @nil N /\ bins_built ex_root /\ siblings_ok ex_root /\
+  PathTableLex.cmd_plain PathTableBlocks.no_semi ex_root = true /\
+  reach ex_root [[120%N]; [99%N]] [[97%N; 45%N; 98%N]; [99%N]] ex_leaf.
+Proof. exact PathTableBlocks.lookup_hyps_example. Qed.
+Print Assumptions C16_table_lookup_nonvacuous.
+(* ---- end of the powershell / elvish block ---- *)
